@@ -360,6 +360,48 @@ pub fn gen_wdwarf(ch: &mut Choices, cx: &mut Ctx) -> (WDwarf, Expect) {
     (WDwarf { big, units, dummies }, expect)
 }
 
+/// The writer's section set: each section is reachable under its own id and no other (`get`, `get_mut`, `for_each`,
+/// `for_each_mut`), and the sections gimli does not write are absent.
+fn check_sections_plumbing() -> R {
+    use crate::{ensure, ensure_eq, fail};
+    use gimli::write::{self as w, Writer};
+    use gimli::SectionId as S;
+    const IDS: [S; 11] = [S::DebugAbbrev, S::DebugInfo, S::DebugLine, S::DebugLineStr, S::DebugRanges, S::DebugRngLists, S::DebugLoc, S::DebugLocLists, S::DebugStr, S::DebugFrame, S::EhFrame];
+    let mut s = w::Sections::new(w::EndianVec::new(gimli::LittleEndian));
+    for (k, id) in IDS.iter().enumerate() {
+        let Some(sec) = s.get_mut(*id) else { fail!("c11/sections/get_mut-missing", "{:?}", id) };
+        sec.write_u8(k as u8 + 1).map_err(|e| Failure { sig: "c11/sections/write".into(), detail: format!("{e:?}") })?;
+    }
+    for (k, id) in IDS.iter().enumerate() {
+        let Some(sec) = s.get(*id) else { fail!("c11/sections/get-missing", "{:?}", id) };
+        ensure_eq!(sec.slice(), &[k as u8 + 1][..], "c11/sections/get", "{:?}", id);
+    }
+    for id in [S::DebugAddr, S::DebugAranges, S::DebugStrOffsets, S::DebugTypes, S::DebugMacro, S::DebugNames, S::EhFrameHdr] {
+        ensure!(s.get(id).is_none(), "c11/sections/get-phantom", "{:?}", id);
+    }
+    let mut seen: Vec<S> = Vec::new();
+    s.for_each(|id, data| -> Result<(), Failure> {
+        let k = IDS.iter().position(|x| *x == id).ok_or_else(|| Failure { sig: "c11/sections/for_each-unknown".into(), detail: format!("{:?}", id) })?;
+        if data.slice() != [k as u8 + 1] {
+            return Err(Failure { sig: "c11/sections/for_each".into(), detail: format!("{:?} holds {:?}", id, data.slice()) });
+        }
+        seen.push(id);
+        Ok(())
+    })?;
+    ensure_eq!(seen.len(), IDS.len(), "c11/sections/for_each-count");
+    let mut seen2 = 0usize;
+    s.for_each_mut(|id, data| -> Result<(), Failure> {
+        let k = IDS.iter().position(|x| *x == id).ok_or_else(|| Failure { sig: "c11/sections/for_each_mut-unknown".into(), detail: format!("{:?}", id) })?;
+        if data.slice() != [k as u8 + 1] {
+            return Err(Failure { sig: "c11/sections/for_each_mut".into(), detail: format!("{:?} holds {:?}", id, data.slice()) });
+        }
+        seen2 += 1;
+        Ok(())
+    })?;
+    ensure_eq!(seen2, IDS.len(), "c11/sections/for_each_mut-count");
+    Ok(())
+}
+
 impl Prop for C11 {
     fn id(&self) -> &'static str {
         "C11"
@@ -386,6 +428,14 @@ impl Prop for C11 {
         }
     }
     fn run_case(&self, ch: &mut Choices, cx: &mut Ctx) -> R {
+        if ch.chance(2) {
+            cx.label("writer section set");
+            return check_sections_plumbing();
+        }
+        if ch.chance(12) {
+            // a relocatable object: the unit base (and every other address) is a symbol plus addend
+            return crate::c16::check_symbolic(ch, cx, "c11/symbolic");
+        }
         let (m, expect) = gen_wdwarf(ch, cx);
         cx.sample_with(|| {
             format!(
